@@ -302,9 +302,8 @@ theorem goRecs_cons (g : Notes) (cur : Option Nat) (d : DRec) (rest : List DRec)
     | some i =>
       simp only [goRecs, recStep]
       cases hf : g.funcs[i]? with
-      | none => simp [hf]
+      | none => simp
       | some f =>
-        simp only [hf]
         by_cases hc : f.realEdgeCount % 4294967296 = len / 2
         · simp [hc]
         · simp [hc]
